@@ -658,7 +658,14 @@ pub fn check(prop: &str, tier: &str) -> i32 {
         for s in &corpus.seeds {
             match w.exec(s.ty, &s.bytes) {
                 Verdict::Done { status: 0, parse_peak, use_peak } if parse_peak <= mem_bound(s.bytes.len()) && use_peak <= mem_bound(s.bytes.len()) => {}
-                v => machinery(&format!("valid seed {:?} is not handled cleanly by the worker: {v:?}", s.name)),
+                // a well-formed object produced by the API itself is an input like any other: a
+                // panic / hang / memory blow-up while reading or using it (possibly only after the
+                // other seeds were used in the same worker) is the property's verdict
+                v => {
+                    let alone = Worker::spawn(&corpus.ctx).exec(s.ty, &s.bytes);
+                    run.report(None, "C14.a", &format!("the valid seed {:?} (an object produced by the API, {} bytes) is not handled cleanly after the preceding valid seeds were used in the same process: {v:?} (alone in a fresh process: {alone:?})", s.name, s.bytes.len()), json!({"engine": "fparse", "type": s.ty, "input": hex(&s.bytes), "mutant": "valid seed"}));
+                    return run.finish();
+                }
             }
         }
     }
